@@ -744,7 +744,8 @@ impl JsValue {
         if let (Some(x), Some(y)) = (self.0.as_integer32(), other.0.as_integer32()) {
             return Some(
                 x.checked_div(y)
-                    .filter(|div| y * div == x)
+                    // `0 / -n` is `-0`, which an integer cannot represent.
+                    .filter(|div| y * div == x && (x != 0 || y > 0))
                     .map_or_else(|| Self::new(f64::from(x) / f64::from(y)), Self::new),
             );
         }
